@@ -786,6 +786,10 @@ func (s *sharedEntryAttributes) GetHighestPrecedence(result LeafVariantSlice, on
 	return result
 }
 
+func (s *sharedEntryAttributes) getLeavingOwners() []string {
+	return s.leafVariants.leavingOwners()
+}
+
 func (s *sharedEntryAttributes) getHighestPrecedenceLeafValue(ctx context.Context) (*LeafEntry, error) {
 	for _, x := range []string{"existing", "default"} {
 		// the value that rules once the pending deletes are applied; the value of an
@@ -1201,7 +1205,13 @@ func (s *sharedEntryAttributes) validateMandatoryWithKeys(ctx context.Context, l
 		// if not the path exists in the tree and is not to be deleted, then lookup in the paths index of the store
 		// and see if such path exists, if not raise the error
 		if !(existsInTree && v.remainsToExist()) {
-			exists, err := s.treeContext.cacheClient.IntendedPathExists(ctx, append(s.Path(), attribute))
+			// the index reflects the intended store before the transaction:
+			// owners that give the attribute up in this transaction do not count
+			var leaving []string
+			if existsInTree {
+				leaving = v.getLeavingOwners()
+			}
+			exists, err := s.treeContext.cacheClient.IntendedPathExists(ctx, append(s.Path(), attribute), leaving...)
 			owner := "unknown"
 			if s.leafVariants.Length() > 0 {
 				s.leafVariants.GetHighestPrecedence(false, true).Owner()
